@@ -19,7 +19,9 @@ PID = "C18"
 class World:
     """One real graph whose node mutates what it receives; gates let the driver interleave runs."""
 
-    def __init__(self, nested, is_async):
+    def __init__(self, nested, is_async, shape=None):
+        shape = shape or {}
+        self.shape = shape
         self.records = {}          # mark -> dict(ids, seen)
         self.keep = []             # keep every received object alive (ids must not be recycled)
         self.gates = {}
@@ -51,14 +53,38 @@ class World:
         self.func = work
         self.bound_obj = []
         node = FunctionNode(work, name="work", output_name="out")
+        bind_at = shape.get("bind_at", "outer") if nested else "outer"
+        side = FunctionNode(lambda mark: ("side", mark), name="side", output_name="side_out")
         with warnings.catch_warnings():
             warnings.simplefilter("ignore")
             if nested:
                 inner = Graph([node], name="inner")
-                g = Graph([inner.as_node()])
+                if bind_at != "outer":
+                    inner = inner.bind(store=self.bound_obj)          # the binding lives in the nested graph
+                gn = inner.as_node()
+                if bind_at == "inner_renamed":
+                    gn = gn.with_inputs(store="book")                # ... and is exposed under another name
+                if shape.get("mapped"):
+                    gn = gn.map_over("inp", "mark", clone=bool(shape.get("clone")))   # every item is a run of the nested graph
+                g = Graph([gn] + ([side] if shape.get("side") else []))
             else:
-                g = Graph([node])
-            self.graph = g.bind(store=self.bound_obj)
+                g = Graph([node] + ([side] if shape.get("side") else []))
+            if bind_at == "outer":
+                g = g.bind(store=self.bound_obj)
+            if shape.get("side") and shape.get("select_side"):
+                g = g.select("side_out")                             # narrowed to an output that does not need `work` (it still runs)
+            self.graph = g
+
+    def call_args(self, inputs):
+        """(values, kwargs) according to the call style: everything in the dict, `mark` as a keyword
+        argument next to the dict, or keyword arguments only."""
+        style = self.shape.get("call", "dict")
+        if style == "mixed":
+            d = {k: v for k, v in inputs.items() if k != "mark"}
+            return d, {"mark": inputs["mark"]}
+        if style == "kwargs":
+            return None, dict(inputs)
+        return inputs, {}
 
     async def gate(self, mark, stage):
         fut = asyncio.get_running_loop().create_future()
@@ -71,19 +97,21 @@ async def settle(n=30):
         await asyncio.sleep(0)
 
 
-async def replay_async(sched, nested, same_runner):
+async def replay_async(sched, nested, same_runner, shape=None):
     """Drive the real AsyncRunner along a TLC schedule of resolve/mutate/finish steps."""
-    w = World(nested, True)
+    w = World(nested, True, shape)
     runners = {}
     tasks, inputs, results = {}, {}, {}
     shared = AsyncRunner()
     for op, r in sched:
         if op == "resolve":
             inp = []
-            inputs[r] = {"inp": inp, "mark": r}
+            vals, kw = w.call_args({"inp": inp, "mark": r})
+            inputs[r] = vals if vals is not None else kw
             inputs[r + 1000] = (dict(inputs[r]), {k: id(v) for k, v in inputs[r].items()})
+            inputs[r + 2000] = inp
             runner = shared if same_runner else AsyncRunner()
-            tasks[r] = asyncio.ensure_future(runner.run(w.graph, inputs[r]))
+            tasks[r] = asyncio.ensure_future(runner.run(w.graph, vals, on_internal_override="ignore", **kw) if vals is not None else runner.run(w.graph, on_internal_override="ignore", **kw))
             await settle()
             if (r, "resolved") not in w.parked:
                 return None, f"run {r} did not reach its body"
@@ -96,22 +124,25 @@ async def replay_async(sched, nested, same_runner):
     return (w, inputs, results), None
 
 
-def replay_sync(order, nested, modes, same_runner):
-    w = World(nested, False)
+def replay_sync(order, nested, modes, same_runner, shape=None):
+    w = World(nested, False, shape)
     wa = None
     inputs, results = {}, {}
     sr = SyncRunner()
     for r in order:
         inp = []
-        inputs[r] = {"inp": inp, "mark": r}
+        vals, kw = w.call_args({"inp": inp, "mark": r})
+        inputs[r] = vals if vals is not None else kw
         inputs[r + 1000] = (dict(inputs[r]), {k: id(v) for k, v in inputs[r].items()})
+        inputs[r + 2000] = inp
         runner = sr if same_runner else SyncRunner()
-        results[r] = runner.run(w.graph, inputs[r])
+        results[r] = runner.run(w.graph, vals, on_internal_override="ignore", **kw) if vals is not None else runner.run(w.graph, on_internal_override="ignore", **kw)
     return (w, inputs, results), None
 
 
 def verdicts(ctx, w, inputs, results, wit):
     runs = sorted(r for r in results)
+    narrowed = bool(w.shape.get("side") and w.shape.get("select_side"))
     d0 = w.func.__defaults__
     if d0[0] != [] or d0[1] != {"k": []}:
         ctx.violation("signature-default-mutated", wit, f"the function's own default objects now hold {d0}")
@@ -123,9 +154,12 @@ def verdicts(ctx, w, inputs, results, wit):
         if res.status.value != "completed":
             ctx.violation("run-failed", wit, f"run {r}: {res.status} {res.error}")
             return
-        if res.values["out"] != ((r,), (r,)):
-            ctx.violation("state-leaked-between-runs", wit, f"run {r} returned {res.values['out']}, alone it returns {((r,), (r,))}")
+        got = (tuple(rec["seen"][0]), tuple(rec["seen"][1]["k"])) if narrowed else res.values.get("out")
+        if got != ((r,), (r,)):
+            ctx.violation("state-leaked-between-runs", wit, f"run {r} returned {got}, alone it returns {((r,), (r,))}")
             return
+        if narrowed and set(res.values) != {"side_out"}:
+            raise RuntimeError(f"harness: narrowed graph returned {sorted(res.values)}")
         if rec["acc_id"] == id(d0[0]) or rec["opts_id"] == id(d0[1]):
             ctx.violation("default-not-copied", wit, f"run {r} received the function's own default object")
             return
@@ -136,7 +170,7 @@ def verdicts(ctx, w, inputs, results, wit):
         if rec["store_id"] != id(w.bound_obj):
             ctx.violation("bound-value-copied", wit, f"run {r}: the bound object did not reach the node as the very object that was bound")
             return
-        if rec["inp_id"] != id(inputs[r]["inp"]):
+        if rec["inp_id"] != id(inputs[r + 2000]):
             ctx.violation("provided-value-copied", wit, f"run {r}: the provided object did not reach the node as the caller's object")
             return
         before, ids = inputs[r + 1000]
@@ -145,6 +179,46 @@ def verdicts(ctx, w, inputs, results, wit):
             return
     if sorted(w.bound_obj) != runs:
         ctx.violation("bound-object-not-shared", wit, f"bound object holds {w.bound_obj}, expected the marks of all runs {runs}")
+
+
+def replay_mapped(n, is_async, bind_at, via_runner_map, clone=False):
+    """The items of a map are runs of the mapped graph (sequential history 1..n of Isolation.tla):
+    a mapping GraphNode (zip over inp/mark) or runner.map over the same nested graph."""
+    w = World(True, False, {"bind_at": bind_at, "mapped": not via_runner_map, "clone": clone})
+    marks = list(range(1, n + 1))
+    inps = [[] for _ in marks]
+    values = {"inp": inps, "mark": marks}
+    runner = AsyncRunner() if is_async else SyncRunner()
+    if via_runner_map:
+        call = runner.map(w.graph, values, map_over=["inp", "mark"], clone=clone, on_internal_override="ignore")
+    else:
+        call = runner.run(w.graph, values, on_internal_override="ignore")
+    res = asyncio.run(call) if is_async else call
+    return w, inps, marks, res
+
+
+def verdicts_mapped(ctx, w, inps, marks, res, wit):
+    d0 = w.func.__defaults__
+    if d0[0] != [] or d0[1] != {"k": []}:
+        return ctx.violation("signature-default-mutated", wit, f"the function's own default objects now hold {d0}")
+    seen_ids = set()
+    for r, inp in zip(marks, inps):
+        rec = w.records.get(r)
+        if rec is None or "seen" not in rec:
+            return ctx.violation("run-failed", wit, f"item {r} did not run: {res}")
+        got = (tuple(rec["seen"][0]), tuple(rec["seen"][1]["k"]))
+        if got != ((r,), (r,)):
+            return ctx.violation("state-leaked-between-map-items", wit, f"item {r} saw {got} in its default-valued arguments, alone it sees {((r,), (r,))}")
+        if rec["acc_id"] in seen_ids or rec["opts_id"] in seen_ids:
+            return ctx.violation("default-copy-shared-between-map-items", wit, f"item {r} received a default copy another item also received")
+        seen_ids |= {rec["acc_id"], rec["opts_id"]}
+        if rec["store_id"] != id(w.bound_obj):
+            return ctx.violation("bound-value-copied", wit, f"item {r}: the bound object did not reach the node as the very object that was bound")
+        if rec["inp_id"] != id(inp):
+            return ctx.violation("provided-value-copied", wit, f"item {r}: the provided item did not reach the node as the caller's object")
+    if sorted(w.bound_obj) != marks:
+        return ctx.violation("bound-object-not-shared", wit, f"bound object holds {w.bound_obj}, expected {marks}")
+    return False
 
 
 def schedules(n, bug="none"):
@@ -186,8 +260,11 @@ def run(tier, seed):
         sched = [(op, int(r)) for op, r in s]
         for nested in (False, True):
             same = rng.random() < 0.5
-            wit = {"schedule": s, "nested": nested, "same_runner": same, "runner": "async"}
-            out, err = asyncio.run(replay_async(sched, nested, same))
+            shape = {"bind_at": rng.choice(["outer", "inner", "inner_renamed"]), "side": rng.random() < 0.5,
+                     "select_side": rng.random() < 0.6, "call": rng.choice(["dict", "dict", "mixed", "kwargs"])}
+            ctx.bump("shape:" + (shape["bind_at"] if nested else "flat") + ("+narrowed" if shape["side"] and shape["select_side"] else "") + "/" + shape["call"])
+            wit = {"schedule": s, "nested": nested, "same_runner": same, "runner": "async", "shape": shape}
+            out, err = asyncio.run(replay_async(sched, nested, same, shape))
             ctx.count()
             ctx.traces()
             n_async += 1
@@ -199,18 +276,35 @@ def run(tier, seed):
             overlap = any(sched[i][1] != sched[i + 1][1] for i in range(len(sched) - 1) if sched[i][0] != "finish")
             if not overlap:
                 order = [r for op, r in sched if op == "finish"]
-                wit2 = {"schedule": s, "nested": nested, "same_runner": same, "runner": "sync"}
-                out2, _ = replay_sync(order, nested, None, same)
+                wit2 = {"schedule": s, "nested": nested, "same_runner": same, "runner": "sync", "shape": shape}
+                out2, _ = replay_sync(order, nested, None, same, shape)
                 n_sync += 1
                 ctx.count()
                 ctx.traces()
                 verdicts(ctx, *out2, wit2)
+    # map items as runs (sequential histories)
+    n_map = 0
+    for n in (2, 3):
+        for is_async in (False, True):
+            for bind_at in ("outer", "inner", "inner_renamed"):
+                for via in (False, True):
+                    for clone in (False, True):
+                        if clone and bind_at == "outer" and not via:
+                            continue      # clone=True asks for copies of ALL broadcast values of the mapping node; a value bound on the OUTER graph is one of them
+                        wit = {"items": n, "runner": "async" if is_async else "sync", "bind_at": bind_at, "via": "runner.map" if via else "mapping GraphNode", "clone": clone}
+                        out = replay_mapped(n, is_async, bind_at, via, clone)
+                        ctx.count()
+                        ctx.traces()
+                        ctx.distinct(json.dumps(wit, sort_keys=True))
+                        n_map += 1
+                        verdicts_mapped(ctx, *out, wit)
+    ctx.bump("map_item_replays", n_map)
     ctx.bump("interleaved_async_replays", n_async)
     ctx.bump("sequential_sync_replays", n_sync)
     ctx.sample({"schedule": all_scheds[len(all_scheds) // 2][1]})
     ctx.assumptions += ["Isolation.tla: runs are Resolve -> Mutate -> Finish, steps of different runs interleave arbitrarily; defaults reach the body as fresh copies, bound and provided values as the same objects; three wrong designs must be caught",
                         "replay: the node's body parks after receiving its arguments and after mutating them; the driver releases it along the TLC schedule (async); sequential schedules are also run on SyncRunner; same or distinct runner instances"]
-    return ctx.finish(rule="every interleaving (TLC) of the resolve/mutate/finish steps of 2 runs, and all (thorough) or 250 sampled (quick) interleavings of 3 runs, of a graph whose function mutates its list/dict signature defaults, its bound object and its provided object; flat and nested (default inside an inner graph); same and different runner instances; sync for sequential histories; distinct = (schedule, nesting)")
+    return ctx.finish(rule="every interleaving (TLC) of the resolve/mutate/finish steps of 2 runs, and all (thorough) or 250 sampled (quick) interleavings of 3 runs, of a graph whose function mutates its list/dict signature defaults, its bound object and its provided object; flat and nested (default inside an inner graph); binding on the outer graph / on the nested graph / on the nested graph under a renamed wrapper input; graph narrowed by select to an output that does not need the mutating node; inputs passed as dict / dict + keyword arguments / keyword arguments only; same and different runner instances; sync for sequential histories; the items of a map (mapping GraphNode and runner.map, 2-3 items, both runners) as sequential runs; distinct = (schedule, nesting)")
 
 
 def replay(path):
@@ -218,8 +312,8 @@ def replay(path):
     ctx = Ctx(PID, "quick", 0, "model_checking")
     sched = [(op, int(r)) for op, r in w["schedule"]]
     if w["runner"] == "async":
-        out, err = asyncio.run(replay_async(sched, w["nested"], w["same_runner"]))
+        out, err = asyncio.run(replay_async(sched, w["nested"], w["same_runner"], w.get("shape")))
     else:
-        out, err = replay_sync([r for op, r in sched if op == "finish"], w["nested"], None, w["same_runner"])
+        out, err = replay_sync([r for op, r in sched if op == "finish"], w["nested"], None, w["same_runner"], w.get("shape"))
     verdicts(ctx, *out, w)
     return 1 if ctx.violations else 0
